@@ -1,14 +1,23 @@
-"""C15 — string, regex, formatting and hash functions match independent references (case-analysis part only).
+"""C15 — string, regex, formatting and hash functions match independent references (case-analysis part and regex part).
 
-Strings.tla gives the index/slice/pad/case/strip/literal-replace/split-join functions over sequences of abstract
-characters (byte width 1..4, case partner, whitespace) as predicates Allowed(case, result), PrintfInt.tla builds the text
-of integer formats; StringsMC has TLC check the laws of the property on the specification; StringsGen enumerates the
+Section "strings": Strings.tla gives the index/slice/pad/case/strip/literal-replace/split-join functions over sequences of
+abstract characters (byte width 1..4, case partner, whitespace) as predicates Allowed(case, result), PrintfInt.tla builds the
+text of integer formats; StringsMC has TLC check the laws of the property on the specification; StringsGen enumerates the
 bounded case space family by family; the rebuilt binary evaluates thousands of cases per process (one JSON row per case,
-one `mlr put -q` per function); StringsObs judges every result.  This file only spells characters, formats and calls,
-and splits output lines: it holds no expected value.
+one `mlr put -q` per function); StringsObs judges every result.
 
-The regex engine, digests, base64/hex, latin1, float formats and strf(n)time are reference-equality claims about
-external libraries and are not decided here (DESIGN.md §6)."""
+Section "regex": Regex.tla is an executable reference semantics (the documented backtracking search over syntax trees whose
+text it also defines) for a sub-language of regular expressions and for sub, gsub, regextract, regextract_or_else, strmatch,
+strmatchx, =~, !=~ and their captures; RegexProg.tla gives meaning to several regex operations in ONE mlr process (put
+statements, user-defined function frames, the verbs sub gsub ssub cut -r having-fields rename -r grep in then-chains);
+RegexMC has TLC check laws against an independent positional-language definition; RegexGen enumerates patterns, subjects and
+programs; every pattern meets every subject in six spellings (many per process) and every program is one process;
+RegexObs judges.  VERIF_C15_MLR points the regex section at another binary (sensitivity experiments), VERIF_C15_ONLY=regex|strings
+runs one section.
+
+This file only spells characters, formats, calls and command lines, and splits output text: it holds no expected value.
+Digests, base64/hex, latin1, float formats and strf(n)time are reference-equality claims about external libraries and are not
+decided here (DESIGN.md §6)."""
 import copy
 import json
 import os
@@ -601,6 +610,8 @@ def rx_prog_key(fam, p, out, rec_i, fld_i, part):
             key["rename_g_with_reference"] = True
         if vb["v"] in ("sub", "gsub", "ssub") and vb["m"] == "r":
             key["sub_verb_option_r"] = True
+        if vb["v"] in ("sub", "gsub") and any(len(f["v"]["s"]) == 0 for rec in p["recs"] for f in rec):
+            key["sub_verb_meets_empty_value"] = True
     return key
 
 
